@@ -16,12 +16,12 @@ ASSUMPTIONS = ['ring-bond symbols are written at the opening marker only (docs/t
                "a '%n' marker is never directly followed by a bare digit marker (would read as one marker)",
                'annotation values avoid the characters ; = , [ ] { } ( ) |']
 
-FUZZ = dict(campaigns=8, runs=2500)
+FUZZ = dict(campaigns=8, runs=6000)
 
 
 def budget(tier):
     if tier == 'thorough':
-        return dict(examples=6000, shards=16, procs=16)
+        return dict(examples=15000, shards=16, procs=16)
     return dict(examples=2500, shards=4, procs=4)
 
 
